@@ -193,6 +193,10 @@ def arrDt (s : State) (a : Arr) : DType := (s.buf a.buf).dt
 def arrVal (s : State) (a : Arr) : Val :=
   ⟨arrDt s a, a.idx.length :: arrTrail s a, (arrRows s a).flatten⟩
 
+/-- two ndarray objects overlap in memory (what `np.shares_memory` reports). -/
+def sharesMem (s : State) (a b : Arr) : Bool :=
+  a.buf == b.buf && prod (arrTrail s a) != 0 && a.idx.any (fun i => b.idx.contains i)
+
 /-! ## indices -/
 
 inductive Index where
@@ -252,8 +256,9 @@ def resolve (n : Nat) : Index → Except Err Sel
     .ok { pos := ps, view := false, scalar := false, count := l.length, oob := ps.length != l.length }
   | .mask m =>
     -- numpy accepts an empty boolean index on an axis of any length (selects nothing)
-    if m.length = n ∨ m.length = 0 then
-      .ok { pos := maskSel n m, view := false, scalar := false, mask := true }
+    -- (an empty boolean index of the wrong length does not take numpy's 1-D boolean path)
+    if m.length = n then .ok { pos := maskSel n m, view := false, scalar := false, mask := true }
+    else if m.length = 0 then .ok { pos := [], view := false, scalar := false }
     else .error .index
 
 /-- `Atoms.__intslice`. -/
@@ -465,6 +470,11 @@ def setItem (o : Nat) (ix : Index) (src : Nat) : M Unit := do
   let sb := s.obj src
   if ¬ sameKeys sb.keys ob.keys then fail .value else
   let sel ← liftE (resolve ob.natoms (atomsIndex ix))
+  -- numpy's 1-D boolean assignment does not protect against a donor overlapping the target
+  -- (a numpy hazard, not atomman's): outside the model
+  if sel.mask ∧ ob.props.any (fun p => arrTrail s p.arr = [] && match sb.find p.key with
+      | some da => sharesMem s p.arr da
+      | none => false) then fail .unmodelled else
   forEach ob.props (fun p => do
     let s' ← getS
     let a ← keyErr ((s'.obj src).find p.key)
@@ -513,11 +523,23 @@ def propGetAtoms (o : Nat) (ix : Index) : M Nat :=
     let t ← getItem o ix
     deepcopy t
 
+/-- `key == 'atype' and np.size(value) > 0 and np.min(value) < 1` → ValueError. -/
+def atypeGuard (key : String) (v : Val) : M Unit :=
+  if key = "atype" ∧ v.data ≠ [] then
+    match v.data.mapM Cell.num? with
+    | none => fail .unmodelled
+    | some nums =>
+      match listMin nums with
+      | some m => if m < 1 then fail .value else pure ()
+      | none => pure ()
+  else pure ()
+
 /-- `prop(key, value=…)` / `prop(key, index, value)`. -/
 def propSet (o : Nat) (key : String) (ix : Option Index) (v : Val) : M Unit := do
   match ix with
   | none => viewSet o key (.lit v)
   | some ix =>
+    atypeGuard key v
     let s ← getS
     let a ← keyErr ((s.obj o).find key)
     let sel ← liftE (resolve a.idx.length ix)
@@ -553,6 +575,7 @@ def propAtype (o : Nat) (key : String) (v : Val) (t : Option Int) : M Unit := do
     match (s.obj o).find key with
     | some _ => pure ()
     | none => viewSet o key (.lit (zerosLike v))
+    atypeGuard key v
     let s' ← getS
     let a ← keyErr ((s'.obj o).find key)
     let ta' ← keyErr ((s'.obj o).find "atype")
@@ -858,10 +881,5 @@ def output (s : State) (op : Op) : Except Err Out := (stepWith false s op).1
 
 def init : State := {}
 
-/-! ## observation: canonical dump and the sharing relation -/
-
-/-- two ndarray objects overlap in memory (what `np.shares_memory` reports). -/
-def sharesMem (s : State) (a b : Arr) : Bool :=
-  a.buf == b.buf && prod (arrTrail s a) != 0 && a.idx.any (fun i => b.idx.contains i)
 
 end Atomman.C06
